@@ -868,19 +868,48 @@ impl CaseEngine for C30 {
                 let stalled: Vec<usize> = (0..sim.n())
                     .filter(|i| appended.iter().any(|(d, _)| !sim.nodes[*i].storage.logs.iter().any(|l| l.data == *d && l.committed)))
                     .collect();
-                let resends_committed = stalled
-                    .iter()
-                    .any(|i| matches!(sim.last_append.get(&(*i as u64)), Some((first, commit, "log_mismatch")) if *first <= *commit && *commit > 0));
+                let leader_log_len = (0..sim.n())
+                    .find(|i| sim.nodes[*i].probe().state == ProbeState::Leader)
+                    .map(|l| sim.nodes[l].storage.logs.len() as u64)
+                    .unwrap_or(u64::MAX);
+                let resent = |whole_log: bool| {
+                    stalled.iter().any(|i| {
+                        matches!(sim.last_append.get(&(*i as u64)), Some((first, commit, "log_mismatch"))
+                            if *first <= *commit && *commit > 0 && (*commit >= leader_log_len) == whole_log)
+                    })
+                };
+                // the follower's commit index is below the leader's log length and still the batch starts at or below it
+                let resends_committed = resent(false);
+                // the follower's commit index equals the leader's log length: `logs_since` finds nothing newer, its
+                // `limit(0)` means unlimited and the whole log is sent
+                let whole_log_resent = resent(true);
+                // a stalled follower that has *committed* another entry at the index of a missing one is
+                // the consequence of diverging commits (C28's concern) seen from here
+                let leader = (0..sim.n()).find(|i| sim.nodes[*i].probe().state == ProbeState::Leader);
+                let committed_other = leader.is_some_and(|l| {
+                    appended.iter().any(|(d, _)| {
+                        sim.nodes[l].storage.logs.iter().find(|e| e.data == *d).is_some_and(|le| {
+                            stalled
+                                .iter()
+                                .any(|i| sim.nodes[*i].storage.logs.iter().any(|e| e.index == le.index && e.committed && e.data != *d))
+                        })
+                    })
+                });
                 let what = if to_append > 0 {
                     "append_not_accepted"
+                } else if committed_other {
+                    "replication_stalled_follower_committed_a_different_entry_at_that_index"
                 } else if resends_committed {
                     "replication_stalled_leader_resends_entries_the_follower_has_committed"
+                } else if whole_log_resent {
+                    "replication_stalled_whole_log_resent_to_a_follower_whose_commit_index_is_the_leaders_log_length"
                 } else {
                     "replication_stalled"
                 };
                 rep.violation(
                     &format!("C30:appended_entry_not_committed_everywhere_within_bound:{what}"),
-                    &format!("{n} nodes: {} of {k} appends accepted; after {h} virtual ms: {missing:?}; states {:?}; last append batch per node (first index, follower commit before, response): {:?}", k - to_append, sim.probes(), sim.last_append),
+                    &format!("{n} nodes: {} of {k} appends accepted; after {h} virtual ms: {missing:?}; states {:?}; last append batch per node (first index, follower commit before, response): {:?}; leader stores {leader_log_len} logs: {:?}", k - to_append, sim.probes(), sim.last_append,
+                        leader.map(|l| sim.nodes[l].storage.logs.iter().map(|e| (e.index, e.term, e.data, e.committed)).collect::<Vec<_>>())),
                     ctx(&sim),
                 );
             }
